@@ -4,6 +4,7 @@
  *   parse <hex text> <rfc822|iso8601|iso8601_basic|auto>     (on success: fields, W zone line, epoch views)
  *   rt <secs> <fmt> <full|short> <parse fmt>
  *   acc <secs> <ms>        aws_date_time_init_epoch_secs(secs + ms/1000.0)
+ *   accd <16 hex digits>   aws_date_time_init_epoch_secs of the double with this bit pattern
  *   millis <u64>           aws_date_time_init_epoch_millis
  *   lfmt <off> <zone hex> <secs> <fmt> <full|short>   local-time formatters (off / zone describe TZ for the model)
  *   diff <a> <b>           aws_date_time_diff
@@ -277,6 +278,23 @@ int main(void) {
             struct aws_date_time dt;
             memset(&dt, 0x5A, sizeof(dt)); /* stale contents must not show through */
             aws_date_time_init_epoch_secs(&dt, (double)secs + (double)ms / 1000.0);
+            printf("%c acc ", s_cls);
+            s_fields(&dt);
+            s_views(&dt);
+        } else if (!strcmp(t[0], "accd") && n == 2) {
+            /* the double is given by its bit pattern; only finite, non-negative values below 2^63 */
+            char *end = NULL;
+            unsigned long long bits = strtoull(t[1], &end, 16);
+            unsigned ex = (unsigned)((bits >> 52) & 0x7FF);
+            if (strlen(t[1]) != 16 || *end != 0 || (bits >> 63) != 0 || ex == 2047 || ex > 1085) {
+                printf("bad-op\n");
+                continue;
+            }
+            double d;
+            memcpy(&d, &bits, 8);
+            struct aws_date_time dt;
+            memset(&dt, 0x5A, sizeof(dt));
+            aws_date_time_init_epoch_secs(&dt, d);
             printf("%c acc ", s_cls);
             s_fields(&dt);
             s_views(&dt);
